@@ -9,38 +9,38 @@ Open Scope N_scope.
 Inductive verdict := VTrue | VFalse | VPrem (qs : list pair).
 
 (* The two "not" premises of the opt rules collapse to: anything <: opt anything (spec note; OptReport::Warning/Silence). *)
+Definition arms (E : env) (a' b' : ty) : verdict :=      (* the structural rules, on traced forms *)
+  match a', b' with
+  | _, TPrim PReserved => VTrue
+  | TPrim PEmpty, _ => VTrue
+  | TPrim PNat, TPrim PInt => VTrue
+  | TServ _, TPrim PPrincipal => VTrue
+  | _, TOpt _ => VTrue
+  | TVec x, TVec y => VPrem [(x, y)]
+  | TRec f1, TRec f2 =>
+      (* every expected field is present (premise) or absent and of an optional type *)
+      if forallb (fun f => match find_field (fst f) f1 with Some _ => true | None => optlike E (snd f) end) f2
+      then VPrem (flat_map (fun f => match find_field (fst f) f1 with Some t1 => [(t1, snd f)] | None => [] end) f2)
+      else VFalse
+  | TVariant f1, TVariant f2 =>
+      if forallb (fun f => match find_field (fst f) f2 with Some _ => true | None => false end) f1
+      then VPrem (flat_map (fun f => match find_field (fst f) f2 with Some t2 => [(snd f, t2)] | None => [] end) f1)
+      else VFalse
+  | TServ m1, TServ m2 =>
+      if forallb (fun m => match find_meth (fst m) m1 with Some _ => true | None => false end) m2
+      then VPrem (flat_map (fun m => match find_meth (fst m) m1 with Some t1 => [(t1, snd m)] | None => [] end) m2)
+      else VFalse
+  | TFunc a1 r1 m1, TFunc a2 r2 m2 =>
+      if list_eqb N.eqb m1 m2 then VPrem [(tuple a2, tuple a1); (tuple r1, tuple r2)] else VFalse
+  | TClass _ t, _ => VPrem [(t, b')]
+  | _, TClass _ t => VPrem [(a', t)]
+  | _, _ => VFalse
+  end.
 Definition rule (E : env) (p : pair) : verdict :=
   let (a, b) := p in
   if ty_eqb a b then VTrue else
   match trace E a, trace E b with
-  | Some a', Some b' =>
-      if ty_eqb a' b' then VTrue else
-      match a', b' with
-      | _, TPrim PReserved => VTrue
-      | TPrim PEmpty, _ => VTrue
-      | TPrim PNat, TPrim PInt => VTrue
-      | TServ _, TPrim PPrincipal => VTrue
-      | _, TOpt _ => VTrue
-      | TVec x, TVec y => VPrem [(x, y)]
-      | TRec f1, TRec f2 =>
-          (* every expected field is present (premise) or absent and of an optional type *)
-          if forallb (fun f => match find_field (fst f) f1 with Some _ => true | None => optlike E (snd f) end) f2
-          then VPrem (flat_map (fun f => match find_field (fst f) f1 with Some t1 => [(t1, snd f)] | None => [] end) f2)
-          else VFalse
-      | TVariant f1, TVariant f2 =>
-          if forallb (fun f => match find_field (fst f) f2 with Some _ => true | None => false end) f1
-          then VPrem (flat_map (fun f => match find_field (fst f) f2 with Some t2 => [(snd f, t2)] | None => [] end) f1)
-          else VFalse
-      | TServ m1, TServ m2 =>
-          if forallb (fun m => match find_meth (fst m) m1 with Some _ => true | None => false end) m2
-          then VPrem (flat_map (fun m => match find_meth (fst m) m1 with Some t1 => [(t1, snd m)] | None => [] end) m2)
-          else VFalse
-      | TFunc a1 r1 m1, TFunc a2 r2 m2 =>
-          if list_eqb N.eqb m1 m2 then VPrem [(tuple a2, tuple a1); (tuple r1, tuple r2)] else VFalse
-      | TClass _ t, _ => VPrem [(t, b')]
-      | _, TClass _ t => VPrem [(a', t)]
-      | _, _ => VFalse
-      end
+  | Some a', Some b' => if ty_eqb a' b' then VTrue else arms E a' b'
   | _, _ => VFalse
   end.
 
